@@ -2,7 +2,7 @@
 
 A seeded register map from a restricted grammar (MemWord / MemUWord with defaults, Registers with MemField / MemUField
 at seeded bit offsets, a counter register with read / write notifications, a nested RegFile, an Array of registers,
-holes; map sizes that are and are not a power of two) is connected through std.axi.axi4_light.connect_addr_map and
+Memory blocks (all mask modes) and AddrRange hooks at word offsets that are not size aligned, holes; map sizes that are and are not a power of two) is connected through std.axi.axi4_light.connect_addr_map and
 compiled by the real compiler.  A seeded AXI4-Lite master drives the five channels with independent per-clock
 decisions: AW before W, W before AW, same clock; bready / rready early, late, toggling, permanently high; back-to-back
 and pipelined transactions (next AW/W while the previous B is outstanding); reads and writes concurrently; partial
@@ -565,7 +565,9 @@ ASSUMPTIONS = [
     "VSIM stands in for a VHDL simulator; the master BFM obeys the protocol itself (valid held until ready, payload stable)",
     "register model: a write takes effect with its B handshake; a read issued while a write to the same address is in flight is not value-checked (ordering unspecified); "
     "unmapped / hole accesses read 0 with OKAY and change nothing; bits of a Register that belong to no field read 0",
-    "restricted register-map grammar (MemWord, MemUWord, Register with MemField/MemUField, counter register with PushOnNotify, nested RegFile, Array of MemWord)",
+    "restricted register-map grammar (MemWord, MemUWord, Register with MemField/MemUField, counter register with PushOnNotify, nested RegFile, Array of MemWord, "
+    "Memory of 2-8 words with the four mask modes / inline or separate access processes / initial contents, AddrRange with an absolute or relative read hook; objects start at any word offset); "
+    "a Memory in mask mode IGNORE writes all four bytes whatever the strobes say (documented behaviour of that mode)",
     "bounded response: 24 clocks while the master holds ready high",
 ]
 
